@@ -244,10 +244,17 @@ func (r *Run) versionsSupported(resp *Resp) bool {
 func (r *Run) opListVersions(op *Op) {
 	km, vm := "", ""
 	if op.HasMk {
-		km = op.Marker
-		if op.Ver != 0 {
-			vm = r.resolveVer(op.B, op.Marker, op.Ver)
+		// the property's domain: marker pairs naming an existing version
+		mb := r.M.Buckets[op.B]
+		ids := r.verIDs[op.B+"/"+op.Marker]
+		if mb == nil || op.Ver <= 0 || len(ids) == 0 {
+			return
 		}
+		km, vm = op.Marker, r.resolveVer(op.B, op.Marker, op.Ver)
+		if mb.Keys[km].Find(vm) == nil {
+			return
+		}
+		r.probe("version listing from a client-chosen (key, version) marker")
 	}
 	x, resp := r.doListVersions(op, versionsQuery(op, km, vm))
 	r.logf("  -> %s", resp.String())
